@@ -45,6 +45,7 @@ package cluster
 //@   ensures [small-is-gossiped] called("OversizedMessage") && !ret("OversizedMessage") ==> called("dynamic:field:send")
 //@   at call OversizedMessage assert [the-encoded-update] arg0 == ret("proto.Marshal") && ret1("proto.Marshal") == nil
 //@   at call dynamic:field:send assert [send-the-encoded-update] arg0 == ret("proto.Marshal")
+//@   at call chan.send assert [queue-the-encoded-update] arg0 == ret("proto.Marshal") && arg1 == c.msgc && called("OversizedMessage") && ret("OversizedMessage")
 //@   ensures [encoded-update-goes-out] called("proto.Marshal") && ret1("proto.Marshal") == nil ==> called("OversizedMessage")
 //@   ensures [oversized-queued-or-counted] called("OversizedMessage") && ret("OversizedMessage") ==> (ret("select") == 0 || called("Counter).Inc"))
 //@   noeffect dynamic:field:send
